@@ -109,6 +109,7 @@ struct World {
     refused: u64,
     honest: u64,
     stop: bool,
+    link_local_twins: u64,
 }
 
 impl World {
@@ -122,6 +123,22 @@ impl World {
                 Some(SocketAddr::V6(v)) => return SocketAddr::new(std::net::IpAddr::V6(*v.ip()), 7000 + self.next_addr),
                 None => {}
             }
+        }
+        if r.chance(1, 6) {
+            // IPv6 link-local peers: the zone (scope id) is part of where a datagram came from. A link-local address is
+            // followed, the next time, by its twin: same ip and port on another link - a different address
+            if let Some(SocketAddr::V6(v)) = self.last_addr {
+                if v.scope_id() != 0 {
+                    let t = SocketAddr::V6(std::net::SocketAddrV6::new(*v.ip(), v.port(), 0, v.scope_id() + 1));
+                    self.last_addr = Some(t);
+                    self.link_local_twins += 1;
+                    return t;
+                }
+            }
+            let ip = std::net::Ipv6Addr::new(0xfe80, 0, 0, 0, 0, 0, 1, self.next_addr);
+            let x = SocketAddr::V6(std::net::SocketAddrV6::new(ip, 7000 + self.next_addr, 0, 2));
+            self.last_addr = Some(x);
+            return x;
         }
         let x = if r.chance(1, 5) {
             addr6(self.next_addr, 7000 + self.next_addr)
@@ -441,6 +458,7 @@ pub fn one_run(ctx: &Ctx, out: &mut Outcome, run_seed: u64) {
         refused: 0,
         honest: 0,
         stop: false,
+        link_local_twins: 0,
     };
 
     // the scripted repertoire in a seeded order
@@ -944,6 +962,9 @@ pub fn one_run(ctx: &Ctx, out: &mut Outcome, run_seed: u64) {
         out.inconclusive("C05: no honest connect in a run (a server refusing everything would pass)");
     }
     out.max("tokens_per_server", w.toks.len() as u64);
+    if w.link_local_twins > 0 {
+        out.add("addresses_differing_in_the_ipv6_zone_only", w.link_local_twins);
+    }
     if w.host_of_last_addr_reused {
         out.count("runs_with_same_host_other_port");
     }
